@@ -26,10 +26,20 @@ try:
     rc, out = sh('cargo test --workspace --no-fail-fast --offline 2>&1 | grep -E "^test result"', cwd=wt + '/jmespath', env=env)
     res = re.findall(r'(\d+) passed; (\d+) failed', out)
     meta['suite_with_change'] = res; meta['suite_green'] = bool(res) and all(f == '0' for _, f in res) and sum(int(p) for p, _ in res) >= 927
-    shutil.copy(os.path.join(mdir, 'demo.rs'), wt + '/jmespath/tests/demo.rs')
-    rc, out = sh(demo_cmd + ' 2>&1 | tail -5', cwd=wt + '/jmespath', env=env)
-    meta['demo_cmd'] = demo_cmd
-    meta['demo_fails_with_change'] = 'FAILED' in out or 'failed' in out
+    cli = os.path.exists(os.path.join(mdir, 'demo.sh'))          # a change to the jp command-line tool: the demonstration is a script run against the built binary
+    def demo_cli():
+        rc, out = sh(f'VERIF_REPO={wt} python3 -c "import sys; sys.path.insert(0, \'{VERIF}\'); from vf import build; print(build.cli_binary(\'dev\'))"', env=env)
+        binp = out.strip().split('\n')[-1]
+        if rc != 0 or not os.path.exists(binp): return None, out[-300:]
+        rc, out = sh(f'bash {os.path.join(mdir, "demo.sh")} {binp}', env=env, timeout=300)
+        return rc, out[-400:]
+    if cli:
+        rc, out = demo_cli(); meta['demo_cmd'] = 'bash demo.sh <jp built from the tree>'; meta['demo_fails_with_change'] = rc == 1; meta['demo_output_with_change'] = out
+    else:
+        shutil.copy(os.path.join(mdir, 'demo.rs'), wt + '/jmespath/tests/demo.rs')
+        rc, out = sh(demo_cmd + ' 2>&1 | tail -5', cwd=wt + '/jmespath', env=env)
+        meta['demo_cmd'] = demo_cmd
+        meta['demo_fails_with_change'] = 'FAILED' in out or 'failed' in out
     # checks against the changed tree
     for c in checks:
         t0 = time.time()
@@ -41,18 +51,22 @@ try:
         detail = [l.strip() for l in out.split('\n') if l.startswith('  ') and ':' in l][:6]
         inc = [l for l in out.split('\n') if l.startswith('INCONCLUSIVE')][:5]
         meta['checks'][c] = {'exit': rc, 'violations': vio[:6], 'detail': detail, 'inconclusive': inc, 'wall_s': round(time.time() - t0, 1), 'last': out.strip().split('\n')[-1][:300]}
-    shutil.copy(os.path.join(mdir, 'demo.rs'), wt + '/jmespath/tests/demo.rs')
-    sh('git checkout -- .', cwd=wt)
-    rc, out = sh(demo_cmd + ' 2>&1 | tail -5', cwd=wt + '/jmespath', env=env)
-    meta['demo_passes_without_change'] = 'test result: ok' in out
+    if cli:
+        sh('git checkout -- .', cwd=wt)
+        rc, out = demo_cli(); meta['demo_passes_without_change'] = rc == 0
+    else:
+        shutil.copy(os.path.join(mdir, 'demo.rs'), wt + '/jmespath/tests/demo.rs')
+        sh('git checkout -- .', cwd=wt)
+        rc, out = sh(demo_cmd + ' 2>&1 | tail -5', cwd=wt + '/jmespath', env=env)
+        meta['demo_passes_without_change'] = 'test result: ok' in out
 finally:
     sh(f'git -C /repo worktree remove --force {wt}'); shutil.rmtree(wt, ignore_errors=True)
     for d in os.listdir('/var/tmp'):
-        if d.startswith('jmverif-replay-') or d.startswith('jmverif-kani-') or d == f'jmverif-ev-{sid}':
+        if d.startswith('jmverif-replay-') or d.startswith('jmverif-kani-') or d.startswith('jmverif-cli-') or d == f'jmverif-ev-{sid}':
             import hashlib
             if d == f'jmverif-ev-{sid}' or d.endswith(hashlib.sha1(wt.encode()).hexdigest()[:10]): shutil.rmtree('/var/tmp/' + d, ignore_errors=True)
     dst = os.path.join(VERIF, 'seeded', sid); os.makedirs(dst, exist_ok=True)
-    for f in ('patch.diff', 'demo.rs', 'notes.md'):
+    for f in ('patch.diff', 'demo.rs', 'demo.sh', 'notes.md'):
         if os.path.exists(os.path.join(mdir, f)): shutil.copy(os.path.join(mdir, f), os.path.join(dst, f))
     meta['detected_by'] = [c for c, r in meta['checks'].items() if r['exit'] == 1 and r['violations']]
     json.dump(meta, open(os.path.join(dst, 'meta.json'), 'w'), indent=1)
